@@ -107,7 +107,9 @@ def gen_manager(rng, tier):
         bad = {"kind": rng.choice(kinds), "target": target, "other": without_end[0] if without_end else None}
     return {"mode": "manager", "species": species, "text": text, "present": present, "with_end": with_end, "ends": ends,
             "restr": restr, "deform": deform, "ignore": ignore, "use": use, "bad": bad,
-            "parse_restrictions": rng.random() < 0.8}
+            "parse_restrictions": rng.random() < 0.7,
+            # restrictions handed over as "already parsed" may come in any key order and may name only some species
+            "preparsed": rng.choice([None, "shuffled", "shuffled", "subset"]), "preparsed_seed": rng.randrange(2 ** 31)}
 
 
 def abbreviate(trace):
@@ -407,6 +409,17 @@ def exec_manager(trace, ctx):
         # the documented way to skip parsing: hand over restrictions that were parsed before
         restr = manager.parse_restrictions(restr)
         ctx.probe("pre_parsed_restrictions")
+        if trace.get("preparsed") and len(restr) > 1:
+            import random as _r
+            r2 = _r.Random(trace.get("preparsed_seed", 0))
+            items = list(restr.items())
+            r2.shuffle(items)
+            if trace["preparsed"] == "subset":
+                items = items[:r2.randint(1, len(items) - 1)]
+                ctx.probe("pre_parsed_subset")
+            if [k for k, _ in items] != list(restr)[:len(items)]:
+                ctx.probe("pre_parsed_other_key_order")
+            restr = dict(items)
     with patched(Alignment, "align_molecules", rec):
         try:
             manager.align_molecules(restr, deform, ignore, parse_restrictions=pr)
@@ -466,7 +479,13 @@ def exec_manager(trace, ctx):
         if ign is not want_i and ign != want_i:
             ctx.violate(P, "hydrogen-flag-misrouted", f"species {nm}: alignment received ignore_hydrogens={ign}, user gave {want_i}",
                         key="ignore")
-    if sorted(got_names) != sorted(names_with_end):
+    if not pr and trace.get("preparsed") == "subset":
+        # which species are aligned when the pre-parsed dictionary names only some of them is not part of the property;
+        # every alignment that does run must still have received its own species' options (checked above)
+        if not set(got_names) <= set(names_with_end):
+            ctx.violate(P, "aligned-species", f"alignments ran for {sorted(got_names)}, species with both resolutions: "
+                                              f"{sorted(names_with_end)}")
+    elif sorted(got_names) != sorted(names_with_end):
         ctx.violate(P, "aligned-species", f"alignments ran for {sorted(got_names)}, species with both resolutions: "
                                           f"{sorted(names_with_end)}")
     ctx.op("manager", f"ok:{len(calls)}")
